@@ -291,6 +291,7 @@ def real_runs(ctx, coq=True):
     with open(lib.REPO + "/data/no_food_trade/computer_readable_combined.csv", newline="") as f:
         all_codes = [r["iso3"] for r in _csv.DictReader(f)]
     specs = fixed_runs()
+    nfixed = len(specs)
     nrand = 3 if ctx.quick else 400
     for _ in range(nrand):
         specs.append(random_run(rng, all_codes))
@@ -306,6 +307,13 @@ def real_runs(ctx, coq=True):
         if run_["error"]:
             stats["failed_runs"] += 1
             failed.append({"iso3": spec["iso3"], "scenario": spec["opt"]["scenario"], "error": run_["error"][:160]})
+            tr = run_.get("trace", "")
+            site = next((f for f in ("extract_results.py", "interpret_results.py", "validate_results.py") if f in tr), None)
+            if site or run_["idx"] < nfixed:
+                # the reporting chain itself refused a solved round (or a run of the fixed pool no longer completes)
+                ctx.violation(f"C04:run-rejected@{site or 'run'}",
+                              f"{spec['iso3']} {spec['opt']['scenario']}: {run_['error'][:200]}",
+                              {"kind": "counterexample", "spec": spec, "trace": tr[-800:]})
         for rd in run_["rounds"]:
             stats["rounds"] += 1
             stats[rd["ty"]] += 1
